@@ -145,7 +145,7 @@ fn init_live(init: &Init) -> Result<Live, String> {
             Ok(Live { doc, model: Model::from_paragraphs(paras.clone()), handles: BTreeMap::new(), built: true })
         }
         Init::Rebuilt { text, indent, sort } => {
-            if text.contains('#') {
+            if text.lines().any(|l| l.starts_with('#')) {
                 return Err("rebuilt start states are limited to comment-free documents".into());
             }
             let parsed = Deb822::from_str(text).map_err(|e| format!("initial text does not parse strictly: {e}"))?;
@@ -435,8 +435,12 @@ fn run_session(c: &Case, obs: &mut Obs, para_epoch: &mut bool) -> Result<(), Fai
     probe::at("init");
     let mut l = match init_live(&c.init) {
         Ok(l) => l,
-        Err(_) => {
+        Err(why) => {
             obs.count("reach.init_skipped");
+            obs.count(&format!("init_skipped.{}", why.split(':').next().unwrap_or("?").replace(' ', "_")));
+            if std::env::var("DESKSET_DEBUG").is_ok() {
+                eprintln!("INIT-SKIPPED {why}: {:?}", c.init);
+            }
             return Ok(());
         }
     };
